@@ -494,6 +494,9 @@ pub struct Socket<'a> {
     /// The last sequence number sent.
     /// I.e. in an idle socket, local_seq_no+tx_buffer.len().
     remote_last_seq: TcpSeqNumber,
+    /// The highest sequence number sent so far. Unlike `remote_last_seq` it is not
+    /// rewound by a retransmission; segments that occupy no sequence space carry it.
+    remote_max_seq: TcpSeqNumber,
     /// The last acknowledgement number sent.
     /// I.e. in an idle socket, remote_seq_no+rx_buffer.len().
     remote_last_ack: Option<TcpSeqNumber>,
@@ -601,6 +604,7 @@ impl<'a> Socket<'a> {
             local_seq_no: TcpSeqNumber::default(),
             remote_seq_no: TcpSeqNumber::default(),
             remote_last_seq: TcpSeqNumber::default(),
+            remote_max_seq: TcpSeqNumber::default(),
             remote_last_ack: None,
             remote_last_win: 0,
             remote_win_len: 0,
@@ -916,6 +920,7 @@ impl<'a> Socket<'a> {
         self.local_seq_no = TcpSeqNumber::default();
         self.remote_seq_no = TcpSeqNumber::default();
         self.remote_last_seq = TcpSeqNumber::default();
+        self.remote_max_seq = TcpSeqNumber::default();
         self.remote_last_ack = None;
         self.remote_last_win = 0;
         self.remote_win_len = 0;
@@ -1062,6 +1067,7 @@ impl<'a> Socket<'a> {
         let seq = Self::random_seq_no(cx);
         self.local_seq_no = seq;
         self.remote_last_seq = seq;
+        self.remote_max_seq = seq;
         Ok(())
     }
 
@@ -1481,7 +1487,10 @@ impl<'a> Socket<'a> {
         // [...] an empty acknowledgment segment containing the current send-sequence number
         // and an acknowledgment indicating the next sequence number expected
         // to be received.
-        reply_repr.seq_number = self.remote_last_seq;
+        // After a retransmission timeout `remote_last_seq` is rewound to the oldest
+        // unacknowledged octet; an empty segment must nevertheless carry the highest
+        // sequence number sent, or the remote will discard it (and its ACK) as old.
+        reply_repr.seq_number = self.remote_last_seq.max(self.remote_max_seq);
         reply_repr.ack_number = Some(self.remote_seq_no + self.rx_buffer.len());
         self.remote_last_ack = reply_repr.ack_number;
 
@@ -1921,6 +1930,7 @@ impl<'a> Socket<'a> {
                 self.local_seq_no = Self::random_seq_no(cx);
                 self.remote_seq_no = repr.seq_number + 1;
                 self.remote_last_seq = self.local_seq_no;
+                self.remote_max_seq = self.local_seq_no;
                 self.remote_has_sack = repr.sack_permitted;
                 self.remote_win_scale = repr.window_scale;
                 // Remote doesn't support window scaling, don't do it.
@@ -1969,6 +1979,7 @@ impl<'a> Socket<'a> {
 
                 self.remote_seq_no = repr.seq_number + 1;
                 self.remote_last_seq = self.local_seq_no + 1;
+                self.remote_max_seq = self.remote_last_seq;
                 self.remote_last_ack = Some(repr.seq_number);
                 self.remote_has_sack = repr.sack_permitted;
                 self.remote_win_scale = repr.window_scale;
@@ -2164,6 +2175,9 @@ impl<'a> Socket<'a> {
             // deallocated from the buffer.
             if self.remote_last_seq < self.local_seq_no {
                 self.remote_last_seq = self.local_seq_no
+            }
+            if self.remote_max_seq < self.local_seq_no {
+                self.remote_max_seq = self.local_seq_no
             }
         }
 
@@ -2725,6 +2739,12 @@ impl<'a> Socket<'a> {
             State::FinWait2 | State::TimeWait => {}
         }
 
+        // Segments that occupy no sequence space carry the highest sequence number sent,
+        // even while `remote_last_seq` is rewound for a retransmission (see `ack_reply`).
+        if repr.segment_len() == 0 {
+            repr.seq_number = repr.seq_number.max(self.remote_max_seq);
+        }
+
         // There might be more than one reason to send a packet. E.g. the keep-alive timer
         // has expired, and we also have data in transmit buffer. Since any packet that occupies
         // sequence space will elicit an ACK, we only need to send an explicit packet if we
@@ -2808,9 +2828,12 @@ impl<'a> Socket<'a> {
         // We've sent a packet successfully, so we can update the internal state now.
         // Use max() so a fast-retransmit segment (whose seq_number is local_seq_no, well
         // behind the current frontier) doesn't rewind the tracked "highest sent" sequence.
-        self.remote_last_seq = self
-            .remote_last_seq
-            .max(repr.seq_number + repr.segment_len());
+        if repr.segment_len() > 0 {
+            self.remote_last_seq = self
+                .remote_last_seq
+                .max(repr.seq_number + repr.segment_len());
+            self.remote_max_seq = self.remote_max_seq.max(self.remote_last_seq);
+        }
         self.remote_last_ack = repr.ack_number;
         self.remote_last_win = repr.window_len;
 
